@@ -41,6 +41,7 @@ Definition parse_op (op : string) : list label :=
   else if String.eqb k "CLOSE" then [LMethod c 0%N MConnClose]
   else if String.eqb k "CLOSEOK" then [LMethod c 0%N MConnCloseOk]
   else if String.eqb k "ACCEPT" then [LAccept c]
+  else if String.eqb k "RESTART" then [LRestart]
   else if String.eqb k "BADM" then [LBadMethod c h]
   else if String.eqb k "HB" then [LHeartbeat c h]
   else if String.eqb k "STARTOK" then [LMethod c 0%N (MStartOk (pB (a 2%N)))]
